@@ -154,3 +154,8 @@ CHECKS.update({
     "C36": ("6/C36", "A workflow that stores state and waits for 1-2 external responses on (a) the in-process stack ServerRuntimeDecorator(IdleReleaseDecorator(PersistenceDecorator(BasicRuntime))) over MemoryWorkflowStore / SqliteWorkflowStore and (b) the DBOS idle-release stack - the real DBOSIdleReleaseDecorator + SqliteRunLifecycleLock (DB file) over the in-process runtime, lifecycle row never created (as shipped) / created by the harness - with idle_timeout in {0.5, 5, 60}; each response is sent at an explorer-chosen point once the run is idle (before the idle timer, in the same loop iteration, after the release; the clock may also advance without a timer coming due) x all interleavings of sends, idle-timer firings and step completions; in every quiescent state 'idle longer than idle_timeout => released, no live control loop, handler marked idle', release never before idle_timeout elapsed and never with work pending, and finally every send succeeded and the run completed with the state stored before waiting plus all responses.",
             "DBOS half: DBOSRuntime and the dbos library are not executed (two-function stand-in bound to the in-process runtime); one known finding (no lifecycle row is ever created, so DBOS runs are never released); fix recorded for the tick-log hole left by _do_resume.", ENGINE_TECH.replace("the real control loop", "the real server / idle-release stacks")),
 })
+
+CHECKS.update({
+    "C26": ("6/C26", "In-process stack: {two sequential waits answered by two independent senders, one wait, a fan-out whose consumers are busy while the run is flagged idle, a delayed retry, a waiter timeout} x idle_timeout relative to the delays x all interleavings of idle-timer firings, releases, sends and step completions on the real server stack: live control loops per run <= 1 at every quiescent point, the run's state inspected at the instant of every release (nothing queued / running / scheduled), loops started <= releases + 1, every sent event in the tick log and reflected in the result. DBOS lifecycle: the real DBOSIdleReleaseDecorator + SqliteRunLifecycleLock with two replicas (separate decorator and lock instances) on one lifecycle DB file, each response delivered through either replica, and a releaser that stops between begin_release and complete_release with the clock jumping beyond CRASH_TIMEOUT_SECONDS.",
+            "Known findings: the in-process release aborts a busy run when the engine announced idle spuriously (C03's root causes). DBOS half: one shared in-process runtime stands for the DBOS cluster; cross-process interleaving inside one lifecycle operation and Postgres are not modelled; bounded poll loop (6 polls).", ENGINE_TECH.replace("the real control loop", "the real server / idle-release stacks")),
+})
